@@ -70,7 +70,116 @@ type shape struct {
 	stdRawToo bool // stdout_raw / stderr_raw carried IN ADDITION to their digests (the digests are still references)
 	symlinks  int
 	smallStd  bool // stdout/stderr blobs below one block (recency histories on tiny caches)
+	stdoutDup int  // k > 0: stdout has the same content as output file k-1 (one hash referenced from two classes)
 	label     string
+}
+
+// clone copies a shape deeply enough for forceDup / forceInlineDup to edit it.
+func (sh *shape) clone() *shape {
+	c := *sh
+	c.files = append([]fileSpec(nil), sh.files...)
+	c.trees = make([]treeSpec, len(sh.trees))
+	for i, t := range sh.trees {
+		ct := t
+		ct.root.files = append([]treeFileSpec(nil), t.root.files...)
+		ct.root.subdirs = append([]int(nil), t.root.subdirs...)
+		ct.children = make([]dirSpec, len(t.children))
+		for k, d := range t.children {
+			cd := d
+			cd.files = append([]treeFileSpec(nil), d.files...)
+			cd.subdirs = append([]int(nil), d.subdirs...)
+			ct.children[k] = cd
+		}
+		c.trees[i] = ct
+	}
+	return &c
+}
+
+// forceDup returns a copy of the shape in which one blob is referenced twice:
+// by two output files (the first and the last plain one, i.e. across the
+// batches of 20 when there are enough files), by an output file and a Tree
+// file, or by an output file and stdout. ok = false when the shape has no
+// room for the variant. file is the index of the output file whose content is shared.
+func forceDup(sh *shape, variant string, rng *rand.Rand) (out *shape, file int, ok bool) {
+	c := sh.clone()
+	var plain []int
+	for i, f := range c.files {
+		if !f.inline && !f.empty && f.dupOf < 0 {
+			plain = append(plain, i)
+		}
+	}
+	if len(plain) == 0 {
+		return nil, 0, false
+	}
+	switch variant {
+	case "file+file":
+		if len(plain) < 2 {
+			return nil, 0, false
+		}
+		i, j := plain[0], plain[len(plain)-1]
+		if rng.IntN(3) == 0 {
+			a, b := rng.IntN(len(plain)), rng.IntN(len(plain))
+			if a > b {
+				a, b = b, a
+			}
+			if a != b {
+				i, j = plain[a], plain[b]
+			}
+		}
+		c.files[j].dupOf = i
+		c.label += " dup=file+file"
+		return c, i, true
+	case "file+tree-file":
+		i := plain[rng.IntN(len(plain))]
+		for ti := range c.trees {
+			t := &c.trees[ti]
+			// a child file when there is one (the traversal of children is the longer path), else a root file
+			for ci := range t.children {
+				for k := range t.children[ci].files {
+					if f := &t.children[ci].files[k]; !f.noDigest && !f.empty {
+						f.dupFile = i
+						c.label += " dup=file+tree-child-file"
+						return c, i, true
+					}
+				}
+			}
+			for k := range t.root.files {
+				if f := &t.root.files[k]; !t.nilRoot && !f.noDigest && !f.empty {
+					f.dupFile = i
+					c.label += " dup=file+tree-root-file"
+					return c, i, true
+				}
+			}
+		}
+		return nil, 0, false
+	case "file+stdout":
+		i := plain[rng.IntN(len(plain))]
+		c.stdout, c.stdoutDup, c.stdoutRaw, c.stdRawToo = 1, i+1, false, false
+		c.label += " dup=file+stdout"
+		return c, i, true
+	}
+	return nil, 0, false
+}
+
+// forceInlineDup returns a copy of the shape in which one output file carries
+// its contents inline (not a reference) and a later output file refers to the
+// same content by digest only (a reference).
+func forceInlineDup(sh *shape, rng *rand.Rand) (out *shape, file int, ok bool) {
+	if len(sh.files) < 2 {
+		return nil, 0, false
+	}
+	c := sh.clone()
+	i := rng.IntN(len(c.files) - 1)
+	j := i + 1 + rng.IntN(len(c.files)-i-1)
+	c.files[i] = fileSpec{size: 9 + rng.IntN(120), inline: true, dupOf: -1}
+	c.files[j] = fileSpec{size: c.files[i].size, dupOf: i}
+	for k := range c.files {
+		if k != j && c.files[k].dupOf == i {
+			c.files[k].dupOf = -1
+		}
+	}
+	c.label += " inline+digest-same-hash"
+	return c, j, true
 }
 
 // >= 9 bytes: lib.GenBlob derives tiny blobs from a hash of the unique stamp, so
@@ -480,7 +589,13 @@ func build(sh *shape, tag string, rng *rand.Rand, mis int, ov map[int]int) *inst
 		if sh.smallStd {
 			size = 9 + rng.IntN(2500)
 		}
-		ri := mk(class, class+"_digest", -1, blob(size, mode == 2, class))
+		var content []byte
+		if k := sh.stdoutDup; class == clsStdout && k > 0 && k <= len(fileContents) && mode == 1 && !overridden() {
+			content = fileContents[k-1]
+		} else {
+			content = blob(size, mode == 2, class)
+		}
+		ri := mk(class, class+"_digest", -1, content)
 		applyMis(ri)
 		return in.refs[ri].stated()
 	}
